@@ -244,8 +244,11 @@ func poolGetOf(v ssa.Value) ssa.CallInstruction {
 
 // ---- C05.4 ------------------------------------------------------------------------------------------------
 
-func checkC05SharedState(w *World, r *Report, p *Proto) {
-	ru := r.Rule("C05.4", "shared state is read-only after publication: every store to a Router field happens in the constructor (on the Router it allocated) or in an option closure applied by the constructor; global options are applied only there; iTree fields are stored only while the tree is being built", 10)
+func checkC05SharedState(w *World, r *Report, p *Proto) { checkSharedStateAs(w, r, p, "C05.4") }
+
+// checkSharedStateAs is rule C05.4 (repeated as C03.6).
+func checkSharedStateAs(w *World, r *Report, p *Proto, id string) {
+	ru := r.Rule(id, "shared state is read-only after publication: every store to a Router field happens in the constructor (on the Router it allocated) or in an option closure applied by the constructor; global options are applied only there; iTree fields are stored only while the tree is being built", 10)
 	rst := p.Router.Underlying().(*types.Struct)
 	rfields := map[*types.Var]bool{}
 	for i := 0; i < rst.NumFields(); i++ {
